@@ -115,7 +115,8 @@ def treehash():
 
 def step_extract(log):
     """Regenerate the Generated/*.lean modules from the working tree."""
-    with Lock("extract"):
+    # under the same lock as the Lean builds: the generated modules are not replaced while another check compiles them
+    with Lock("lake"):
         exe = os.path.join(CACHE, "extract.bin")
         rc, out = sh(["go", "build", "-o", exe, "."], cwd=os.path.join(VERIF, "extract"), env=GOENV)
         if rc != 0:
@@ -215,8 +216,10 @@ def prepare_overlay(spec, optional=True):
         with open(src, "rb") as a:
             data = a.read()
         if not os.path.exists(dst) or open(dst, "rb").read() != data:
-            with open(dst, "wb") as b:
+            tmp = f"{dst}.{os.getpid()}.{time.time_ns()}.tmp"
+            with open(tmp, "wb") as b:
                 b.write(data)
+            os.replace(tmp, dst)
     rep = {os.path.join(REPO, "common/zzverif/vh.go"): os.path.join(VERIF, "harness/vh/vh.go")}
     for virt, real in spec.get("overlay", {}).items():
         rep[os.path.join(REPO, virt)] = os.path.join(VERIF, "harness", real)
@@ -224,9 +227,15 @@ def prepare_overlay(spec, optional=True):
         # harness parts that touch unexported internals: dropped when they no longer compile (step_harness_one)
         for virt, real in spec.get("optional_overlay", {}).items():
             rep[os.path.join(REPO, virt)] = os.path.join(VERIF, "harness", real)
-    path = os.path.join(CACHE, f"overlay_{spec['id']}{'' if optional else '_core'}.json")
-    with open(path, "w") as f:
-        json.dump({"Replace": rep}, f)
+    # several harnesses of one property run at the same time (and several checks may run at once): the file is named
+    # after its content and put in place atomically, so no go command ever reads a half-written overlay
+    data = json.dumps({"Replace": rep}, sort_keys=True)
+    path = os.path.join(CACHE, f"overlay_{spec['id']}{'' if optional else '_core'}_{hashlib.sha256(data.encode()).hexdigest()[:12]}.json")
+    if not os.path.exists(path):
+        tmp = f"{path}.{os.getpid()}.{time.time_ns()}.tmp"
+        with open(tmp, "w") as f:
+            f.write(data)
+        os.replace(tmp, path)
     return path
 
 
